@@ -12,6 +12,11 @@ CHECKS = {
    "Every multiset of <=5 points of a 1-D lattice, every subset of <=5/6 points of the 3x3 lattice (plus generic-position images and a dimension sweep to d=16), every lattice / half-lattice query, every k in 0..n+2, every radius that is exactly an inter-point distance or a midpoint between two, all leaf sizes, five metrics, f32 and f64, all three index kinds: answers compared with a brute-force distance table, and the three kinds compared with each other on points lying exactly on the radius. Exhaustive within those bounds, so tie handling and boundary behaviour are decided, not sampled.",
    "Reference distances are recomputed in f64 from the coordinates as rounded to the subject's float type; points within 1e-11 (f64) / 2e-5 (f32) of a radius that are not exactly on it are indeterminate. Bounded claim: n <= 6 points.",
    "DESIGN.md 4/C07"),
+ "C20": ("model_checking",
+   "stateless exploration of the real code under controlled nondeterminism: depth-first enumeration of all fork-join scheduling scripts under a stand-in rayon-core, enumeration of per-process hash seeds through an LD_PRELOAD getrandom seam with hook-measured order coverage, all pool sizes 1..16",
+   "Owns the three nondeterminism sources of the statement. (1) Schedules: real rayon + ndarray::parallel + linfa k-means closures run on a stand-in rayon-core whose join/join_context decisions (branch order, steal flag) come from a script; every script is enumerated depth-first (all scripts for short seams, all scripts with <= 3/4 non-default decisions for longer ones) for predict / transform / 1-2 Lloyd iterations / k-means++ on 4..8 rows and T = 1..4; the outcome must be bit-identical to the default schedule's. (2) Hash-map order: 40 estimator fits (every family of the statement, tie datasets) run in child processes whose RandomState keys are fixed by a getrandom shim; seeds are enumerated until observation hooks in linfa report every key order (<= 3 keys) at every order-sensitive site. (3) Pool sizes: RAYON_NUM_THREADS = 1..16, plus unsalted process re-runs and 3 in-process repetitions. One fingerprint per estimator is demanded across all of it.",
+   "Schedule space = series-parallel linearisations + steal patterns of the join tree (leaves contain no synchronisation), not arbitrary cross-subtree interleavings; fingerprints cover what the public API exposes; 64-bit hash collisions ignored; k-means||, t-SNE, unseeded FastICA, permutation p-values excluded by the statement.",
+   "DESIGN.md 3.3, 3.4, 4/C20"),
 }
 
 def main():
@@ -50,6 +55,10 @@ def main():
         "engines": [
             {"name": "lvmc", "path": "/verif/harness", "serves_properties": [c["property_id"] for c in checks],
              "kind_free_text": "own bounded-exhaustive enumerators + explicit-state lock-step explorer (implementation vs reference model), running the real linfa code; see DESIGN.md section 3"},
+            {"name": "sched", "path": "/verif/harness-sched", "serves_properties": ["C20"],
+             "kind_free_text": "controlled fork-join scheduler: crates.io rayon-core patched by a script-driven stand-in; depth-first enumeration of scheduling scripts over the real rayon / ndarray / linfa code"},
+            {"name": "hashseed", "path": "/verif/preload/getrandom_shim.c", "serves_properties": ["C20"],
+             "kind_free_text": "LD_PRELOAD getrandom seam that makes the per-process HashMap seed an enumerated, replayable input"},
         ],
         "checks": checks,
         "notes": "Driver: ./check <Cxx> quick|thorough|--replay <file>. known_findings.json lists genuine defects (fixed ones suppress nothing).",
